@@ -155,6 +155,8 @@ type WorkerResult struct {
 	Required    []string          `json:"required_probes"`
 	Assumptions []string          `json:"assumptions"`
 	Inconcl     int               `json:"inconclusive"`
+	// StoppedEarly: the worker gave the rest of its chunk back (memory), not an error
+	StoppedEarly string `json:"stopped_early,omitempty"`
 }
 
 // runtimeVerifSeed reseeds the patched runtime's random source and switches sysmon's retake off (only the
@@ -458,6 +460,17 @@ func (sp *Spec) batch(t *testing.T) {
 	for k := 0; k < count; k++ {
 		if !deadline.IsZero() && time.Now().After(deadline) {
 			break
+		}
+		if k > 0 && k%8 == 0 {
+			// what earlier runs left behind (every state machine ever opened stays reachable from the goroutines
+			// it leaked into its dead bubble) must not add up: hand the rest of the chunk back to the runner,
+			// which starts a fresh process for the next chunk
+			var ms runtime.MemStats
+			runtime.ReadMemStats(&ms)
+			if ms.HeapAlloc > 2<<30 {
+				res.StoppedEarly = fmt.Sprintf("heap %d MiB after %d runs", ms.HeapAlloc>>20, k)
+				break
+			}
 		}
 		i := first + k*stride
 		rs := RunSeed(seed, sp.Prop, i)
